@@ -8,7 +8,7 @@
 From Coq Require Import Sorted.
 From GixV.Base Require Import Bytes BytesFacts Outcome.
 From Coq Require Import Permutation.
-From GixV.C09 Require Import Model ProofsBisect ProofsOrder ProofsLookup ProofsFanout ProofsWrite ProofsLayout ProofsOffsets ProofsMidxOffsets.
+From GixV.C09 Require Import Model ProofsBisect ProofsOrder ProofsLookup ProofsFanout ProofsWrite ProofsLayout ProofsOffsets ProofsMidxOffsets ProofsMidxTable.
 Local Open Scope N_scope.
 
 (* a full-id lookup finds an id exactly when it is present, and the index it returns holds that id;
@@ -148,6 +148,19 @@ Theorem midx_offsets_chunk_RT : forall es,
     forall i, (i < length es)%nat ->
       midx_read (needs_large es) ooff (loff_chunk es) i = (mpack (nth i es mdflt), mofs (nth i es mdflt)).
 Proof. exact L_midx_offsets_chunk_RT. Qed.
+
+(* multi-pack index, table level: the entry table built from the collected entries of all input indices
+   (stable sort by (id, mtime descending, pack index), then dedup by id) is sorted by id, holds exactly
+   the collected ids and only collected entries, and its fan-out is what lookup_iff_in and
+   lookup_prefix_is_scan assume - so those two theorems apply to the multi-pack index's table *)
+Theorem midx_table : forall all,
+  Forall (fun e => length (mid_ e) = 20%nat) all -> N.of_nat (length all) < U32 ->
+  let es := dedup_by_id (sort_by cmp_mentry all) in
+  sorted_ids (map mid_ es) /\ all20 (map mid_ es) /\
+  (forall id, In id (map mid_ es) <-> In id (map mid_ all)) /\
+  (forall e, In e es -> In e all) /\
+  exists fan, fanout (map (fun e => first_byte (mid_ e)) es) = Ok fan /\ fan_of (map mid_ es) fan.
+Proof. exact L_midx_table. Qed.
 
 (* non-vacuity, and one byte-level instance end to end: three entries (one offset in the 64-bit
    table), written, opened, looked up by id and by prefix *)
